@@ -623,6 +623,108 @@ pub fn replay_in_child(id: &str, path: &Path) -> ReplayOutcome {
 }
 
 // ---------------------------------------------------------------------------------------
+// shrinking of cases that kill or deadlock the process (proptest cannot shrink those: the
+// process running it is gone). Structural ddmin over the JSON of the case: remove chunks of
+// any array, pull numbers towards 0; a candidate is kept when its replay (in a child) dies /
+// blocks with the same signature. Candidates that no longer decode are simply not failing.
+
+fn json_arrays(v: &serde_json::Value, path: &mut Vec<String>, out: &mut Vec<(Vec<String>, usize)>) {
+    match v {
+        serde_json::Value::Array(a) => {
+            out.push((path.clone(), a.len()));
+            for (i, x) in a.iter().enumerate() {
+                path.push(i.to_string());
+                json_arrays(x, path, out);
+                path.pop();
+            }
+        }
+        serde_json::Value::Object(o) => {
+            for (k, x) in o {
+                path.push(k.clone());
+                json_arrays(x, path, out);
+                path.pop();
+            }
+        }
+        _ => {}
+    }
+}
+
+fn json_at<'a>(v: &'a mut serde_json::Value, path: &[String]) -> Option<&'a mut serde_json::Value> {
+    let mut cur = v;
+    for p in path {
+        cur = match cur {
+            serde_json::Value::Array(a) => a.get_mut(p.parse::<usize>().ok()?)?,
+            serde_json::Value::Object(o) => o.get_mut(p)?,
+            _ => return None,
+        };
+    }
+    Some(cur)
+}
+
+pub fn shrink_dead_case(id: &str, saved: &SavedFailure, max_evals: usize, max_time: Duration) -> (SavedFailure, usize) {
+    let t0 = Instant::now();
+    let mut best = saved.clone();
+    let mut evals = 0usize;
+    let dir = tempfile::Builder::new().prefix("jbkv-shrink-").tempdir_in(scratch_root()).unwrap();
+    let mut still_fails = |cand: &serde_json::Value, evals: &mut usize| -> bool {
+        *evals += 1;
+        let mut s = saved.clone();
+        s.case = cand.clone();
+        let p = dir.path().join("cand.json");
+        std::fs::write(&p, serde_json::to_vec(&s).unwrap()).unwrap();
+        match replay_in_child(id, &p) {
+            ReplayOutcome::Pass => false,
+            ReplayOutcome::Fail(f) => f.sig == saved.sig,
+            ReplayOutcome::Died(d) => {
+                // same way of dying: the signal name in parentheses, e.g. "(SIGABRT)"
+                let tok = |s: &str| s.find("(SIG").map(|i| s[i..].split(')').next().unwrap_or("").to_string());
+                saved.sig.starts_with("died:") && tok(&saved.sig).is_some() && tok(&saved.sig) == tok(&d)
+            }
+        }
+    };
+    let mut progress = true;
+    while progress && evals < max_evals && t0.elapsed() < max_time {
+        progress = false;
+        let mut arrays = vec![];
+        json_arrays(&best.case, &mut vec![], &mut arrays);
+        arrays.sort_by(|a, b| b.1.cmp(&a.1));
+        'arrays: for (path, len) in arrays {
+            if len == 0 {
+                continue;
+            }
+            let mut chunk = len.div_ceil(2);
+            loop {
+                let mut start = 0;
+                while start < len {
+                    if evals >= max_evals || t0.elapsed() >= max_time {
+                        break 'arrays;
+                    }
+                    let mut cand = best.case.clone();
+                    let Some(serde_json::Value::Array(a)) = json_at(&mut cand, &path) else { continue 'arrays };
+                    if start >= a.len() {
+                        break;
+                    }
+                    let end = (start + chunk).min(a.len());
+                    a.drain(start..end);
+                    if still_fails(&cand, &mut evals) {
+                        best.case = cand;
+                        progress = true;
+                        continue 'arrays; // indexes moved: re-enumerate
+                    }
+                    start += chunk;
+                }
+                if chunk == 1 {
+                    break;
+                }
+                chunk = chunk.div_ceil(2);
+            }
+        }
+    }
+    best.note = format!("{}; shrunk structurally by re-running candidates in child processes ({evals} replays)", saved.note);
+    (best, evals)
+}
+
+// ---------------------------------------------------------------------------------------
 // orchestrator
 
 pub struct RunSummary {
@@ -823,11 +925,13 @@ pub fn run_workers<P: Property>(tier: Tier, seed: u64, summary: &mut RunSummary)
                                     sig: sig.clone(),
                                     msg: format!("worker process died ({status}); last stderr line: {last}"),
                                     case,
-                                    note: "in-flight case of a dead worker (not shrunk)".into(),
+                                    note: "in-flight case of a dead worker".into(),
                                 };
                                 if known.contains(&sig) {
                                     *summary.merged.excluded_known.entry(sig).or_default() += 1;
                                 } else {
+                                    let (saved, n) = shrink_dead_case(P::ID, &saved, 120, Duration::from_secs(180));
+                                    summary.merged.shrink_runs += n as u64;
                                     let p = save_replay(P::ID, &format!("s{seed}-w{w}-died"), &saved);
                                     println!("VIOLATION property={} replay={}", P::ID, p.display());
                                     eprintln!("  {}", saved.msg);
